@@ -95,7 +95,7 @@ def run_case(case):
             if env.get("dirty"):
                 pipeline.place_dirty(world, env, pipeline.module_artefacts(wfiles, spelled))
                 st_probes["stale_artefacts_present"] = 1
-            p = core.run_cmd(os.path.join(world, rel_cwd), ["run", spelled] + run_flags, plan=plan, gc=env["gc"], extra_env=xenv)
+            p = core.run_cmd(os.path.join(world, rel_cwd), ["run", spelled] + run_flags, plan=plan, gc=env["gc"], extra_env=xenv, nofile=env.get("nofile"))
             procs.append(p)
             rules.append(env["rules"])
             final = p
@@ -105,14 +105,14 @@ def run_case(case):
                 pipeline.place_dirty(world, env, pipeline.module_artefacts(wfiles, spelled))
                 st_probes["stale_artefacts_present"] = 1
             cwd = os.path.join(world, rel_cwd)
-            c = core.run_cmd(cwd, ["compile", spelled] + compile_flags, plan=plan, extra_env=xenv)
+            c = core.run_cmd(cwd, ["compile", spelled] + compile_flags, plan=plan, extra_env=xenv, nofile=env.get("nofile"))
             procs.append(c)
             rules.append(env["rules"])
             if c["rc"] != 0:
                 final = c
             else:
                 p = core.run_cmd(cwd, ["execute", spelled[:-3] + ".mmm"],
-                                 plan={"seed": env["seed2"], "rules": env["rules"]}, gc=env["gc"], extra_env=xenv)
+                                 plan={"seed": env["seed2"], "rules": env["rules"]}, gc=env["gc"], extra_env=xenv, nofile=env.get("nofile"))
                 procs.append(p)
                 rules.append(env["rules"])
                 final = p
